@@ -107,8 +107,11 @@ func (ups *Packet) ConnectPacket(manager cert.TlsConfig, mustSecure bool, connec
 	// - we can execute mutual (client-server) authentication
 	cc, err := socketace.NewClientConnection(c, manager, false, ups.Address.Host)
 	if err != nil {
+		// the attempt is over: the physical connection made for it is ours to close
+		streams.TryClose(c)
 		return errors.Wrapf(err, "Could not open connection")
 	} else if mustSecure && !cc.Secure() {
+		streams.TryClose(cc)
 		return errors.Errorf("Could not establish a secure connection to %v", a)
 	} else {
 		stream = cc
